@@ -60,6 +60,9 @@ pub enum Illegal {
     /// 4 tuple, 5 array, 6 function type, 10 Vec[foreign struct], 11 unit), or an inherent impl
     /// for a type that is not the package's own (7 Vec[int32], 8 int32, 9 foreign struct)
     OrphanImplBuiltin(u8),
+    /// the same impl twice where trait or type belongs to another package (0 = foreign trait for
+    /// an own type, both in one file; 1 = the same in two files; 2 = own trait for a foreign type)
+    DuplicateImplForeign(u8),
     /// a package directory whose files all declare another package name, inside an import cycle
     /// through the *directory* name (0 = it imports its own directory name, 1 = a package it
     /// reaches imports it back)
@@ -84,7 +87,7 @@ pub enum Via {
     StructPattern,
 }
 
-pub const ILLEGAL_KINDS: [Illegal; 41] = [
+pub const ILLEGAL_KINDS: [Illegal; 44] = [
     Illegal::NotImported,
     Illegal::NotImportedVia(Via::SignatureType),
     Illegal::NotImportedVia(Via::LetAnnotation),
@@ -126,6 +129,9 @@ pub const ILLEGAL_KINDS: [Illegal; 41] = [
     Illegal::OrphanImplBuiltin(11),
     Illegal::MisnamedInCycle(0),
     Illegal::MisnamedInCycle(1),
+    Illegal::DuplicateImplForeign(0),
+    Illegal::DuplicateImplForeign(1),
+    Illegal::DuplicateImplForeign(2),
 ];
 
 fn reaches(proj: &Project, from: usize, to: usize) -> bool {
@@ -404,6 +410,38 @@ pub fn inject(proj: &Project, kind: &Illegal, p: &mut Prng) -> Option<(Files, Fi
                 desc = format!("{} implements foreign trait {q}::ZzT for {ty}", proj.pkgs[pi].name);
             }
         }
+        Illegal::DuplicateImplForeign(form) => {
+            let mut cands = Vec::new();
+            for pi in 0..n {
+                if !proj.pkgs[pi].imports.is_empty() {
+                    cands.push(pi);
+                }
+            }
+            if cands.is_empty() {
+                return None;
+            }
+            let pi = *p.pick(&cands);
+            let qi = *p.pick(&proj.pkgs[pi].imports);
+            let q = proj.pkgs[qi].name.clone();
+            twin.pkgs[qi].raw.push_str("\ntrait ZzT {\n    fn zz(Self) -> int32;\n}\n\nstruct ZzS {\n    x: int32,\n}\n");
+            let (tr, ty) = if form % 3 == 2 {
+                twin.pkgs[pi].raw.push_str("\ntrait ZzU {\n    fn zu(Self) -> int32;\n}\n");
+                ("ZzU".to_string(), format!("{q}::ZzS"))
+            } else {
+                twin.pkgs[pi].raw.push_str("\nstruct ZzL {\n    x: int32,\n}\n");
+                (format!("{q}::ZzT"), "ZzL".to_string())
+            };
+            let m = if form % 3 == 2 { "zu" } else { "zz" };
+            let one = |k: u32| format!("\nimpl {tr} for {ty} {{\n    fn {m}(self: {ty}) -> int32 {{\n        {k}\n    }}\n}}\n");
+            twin.pkgs[pi].raw_last.push_str(&one(1));
+            bad = twin.clone();
+            if form % 3 == 1 {
+                bad.pkgs[pi].raw.push_str(&one(2));
+            } else {
+                bad.pkgs[pi].raw_last.push_str(&one(2));
+            }
+            desc = format!("{} implements {tr} for {ty} twice (form {form})", proj.pkgs[pi].name);
+        }
         Illegal::MisnamedInCycle(form) => {
             if n < 2 {
                 return None;
@@ -457,4 +495,34 @@ pub fn inject(proj: &Project, kind: &Illegal, p: &mut Prng) -> Option<(Files, Fi
         }
     }
     Some((twin.render(), bad.render(), desc))
+}
+
+/// Layouts that are merely odd (C04 only asks that the compiler ends with a result or a
+/// diagnostic): the same name defined twice in one package, in one file or across two files, as
+/// the same or as another kind of item, with a use of the name so that later stages see it.
+pub const ODD_LAYOUTS: u8 = 8;
+
+pub fn odd_layout(proj: &Project, form: u8, p: &mut Prng) -> (Files, String) {
+    let mut bad = proj.clone();
+    let pi = p.usize(proj.pkgs.len());
+    let (a, b, usage) = match form % ODD_LAYOUTS {
+        0 => ("struct ZzD {\n    x: int32,\n}\n", "struct ZzD {\n    y: int32,\n}\n", "fn zz_use() -> int32 {\n    let s = ZzD { x: 1 };\n    s.x\n}\n"),
+        1 => ("struct ZzD {\n    x: int32,\n}\n", "enum ZzD {\n    A,\n    B(int32),\n}\n", "fn zz_use() -> int32 {\n    let s = ZzD { x: 1 };\n    s.x\n}\n"),
+        2 => ("struct ZzD[T] {\n    v: T,\n}\n", "enum ZzD[T] {\n    A(T),\n    B,\n}\n", "fn zz_use() -> int32 {\n    let s = ZzD { v: 1 };\n    s.v\n}\n"),
+        3 => ("struct ZzD[T] {\n    v: T,\n}\n", "enum ZzD[T, U] {\n    A(T),\n    B(U),\n}\n", "fn zz_use() -> int32 {\n    let s = ZzD { v: 1 };\n    s.v\n}\n"),
+        4 => ("fn zzf() -> int32 {\n    1\n}\n", "fn zzf(a: int32) -> string {\n    \"x\"\n}\n", "fn zz_use() -> int32 {\n    zzf()\n}\n"),
+        5 => ("trait ZzT {\n    fn zz(Self) -> int32;\n}\n", "trait ZzT {\n    fn zq(Self) -> string;\n}\n", "struct ZzL {\n    x: int32,\n}\n\nimpl ZzT for ZzL {\n    fn zz(self: ZzL) -> int32 {\n        1\n    }\n}\n"),
+        6 => ("enum ZzD {\n    A,\n}\n", "enum ZzD {\n    A,\n    B(int32),\n}\n", "fn zz_use() -> int32 {\n    match ZzD::A {\n        ZzD::A => 1,\n        _ => 0,\n    }\n}\n"),
+        _ => ("enum ZzD[T] {\n    A(T),\n    B,\n}\n", "struct ZzD[T] {\n    v: T,\n}\n", "fn zz_use() -> int32 {\n    match ZzD::A(1) {\n        ZzD::A(k) => k,\n        _ => 0,\n    }\n}\n"),
+    };
+    let swap = p.chance(1, 2);
+    let (first, second) = if swap { (b, a) } else { (a, b) };
+    bad.pkgs[pi].raw.push_str(&format!("\n{first}"));
+    if p.chance(1, 2) {
+        bad.pkgs[pi].raw.push_str(&format!("\n{second}"));
+    } else {
+        bad.pkgs[pi].raw_last.push_str(&format!("\n{second}"));
+    }
+    bad.pkgs[pi].raw_last.push_str(&format!("\n{usage}"));
+    (bad.render(), format!("{} defines one name twice (odd layout {form})", proj.pkgs[pi].name))
 }
